@@ -1,0 +1,106 @@
+//! Verification hooks, compiled only with `--cfg sle_verif`.
+//!
+//! The library is single-threaded (`Rc` everywhere), so a thread-local event
+//! sink observes an analysis exactly. Events are emitted at the linearisation
+//! points of the loops they describe: after the state change they report and
+//! before the next iteration. Nothing here changes behaviour.
+
+use std::cell::{Cell, RefCell};
+
+/// One observed step of the implementation.
+#[derive(Clone, Debug, PartialEq, Eq)]
+pub enum Event {
+    /// Top of an iteration of a loop that promises to poll the watchdog.
+    LoopIter { site: &'static str },
+    /// One instruction was executed by thread `tid` (after its effect, before
+    /// `advance`).
+    Exec {
+        tid:         u64,
+        ip:          u32,
+        text:        String,
+        ok:          bool,
+        err_kind:    Option<String>,
+        err_loc:     Option<u32>,
+        /// Whether the error was added to the VM's error buffer.
+        recorded:    bool,
+        cost:        usize,
+        gas_after:   usize,
+        /// Visit count of `ip` in this thread, after marking this visit.
+        visits:      usize,
+        killed:      bool,
+        stack_depth: usize,
+    },
+    /// Thread `parent` forked `child`, which starts at `target`.
+    Fork {
+        parent: u64,
+        child:  u64,
+        from:   u32,
+        target: u32,
+        /// Forks to `target` so far, including this one.
+        forks:  usize,
+    },
+    /// An opcode asked for an error to be stored without failing itself.
+    StoreErr { kind: String, loc: u32 },
+    /// The outcome of `advance` for thread `tid`, whose instruction pointer was
+    /// `ip` when `advance` was entered.
+    Advance {
+        tid:     u64,
+        ip:      u32,
+        /// `Some(next)` when the thread steps on, `None` when it is retired.
+        next:    Option<u32>,
+        oob:     bool,
+        limit:   bool,
+        gas:     bool,
+        killed:  bool,
+        gas_err: bool,
+    },
+}
+
+thread_local! {
+    static SINK: RefCell<Option<Vec<Event>>> = const { RefCell::new(None) };
+    static NEXT_THREAD_ID: Cell<u64> = const { Cell::new(0) };
+}
+
+/// Starts recording events on this thread, discarding any previous recording.
+pub fn start() {
+    SINK.with(|s| *s.borrow_mut() = Some(Vec::new()));
+    NEXT_THREAD_ID.with(|n| n.set(0));
+}
+
+/// Stops recording and returns what was recorded.
+#[must_use]
+pub fn take() -> Vec<Event> {
+    SINK.with(|s| s.borrow_mut().take().unwrap_or_default())
+}
+
+/// Whether a recording is in progress.
+#[must_use]
+pub fn active() -> bool {
+    SINK.with(|s| s.borrow().is_some())
+}
+
+/// Records `event` if a recording is in progress.
+pub fn emit(event: Event) {
+    SINK.with(|s| {
+        if let Some(v) = s.borrow_mut().as_mut() {
+            v.push(event);
+        }
+    });
+}
+
+/// Records the event built by `f` if a recording is in progress.
+pub fn emit_with(f: impl FnOnce() -> Event) {
+    if active() {
+        emit(f());
+    }
+}
+
+/// A fresh identifier for a VM thread.
+#[must_use]
+pub fn fresh_thread_id() -> u64 {
+    NEXT_THREAD_ID.with(|n| {
+        let v = n.get();
+        n.set(v + 1);
+        v
+    })
+}
